@@ -485,7 +485,12 @@ func prepareCall(fr *frame, call *ssa.CallCommon) (fn value, args []value) {
 		// Interface method invocation.
 		recv := v.(iface)
 		if recv.t == nil {
-			panic("method invoked on nil interface")
+			if nt, ok := call.Value.Type().(*types.Named); ok && nt.Obj().Pkg() != nil &&
+				(Opaque(nt.Obj().Pkg().Path()) || strings.Contains(nt.Obj().Name(), "etrics")) {
+				// logging / metrics sink that the harness left nil: calls have no effect
+				return opaqueFn{call.Signature()}, nil
+			}
+			panic(targetPanic{"runtime error: invalid memory address or nil pointer dereference (method call on nil interface " + call.Value.Type().String() + "." + call.Method.Name() + ")"})
 		}
 		if f := lookupMethod(fr.i, recv.t, call.Method); f == nil {
 			// Unreachable in well-typed programs.
@@ -513,6 +518,9 @@ func call(i *interpreter, caller *frame, callpos token.Pos, fn value, args []val
 
 var MergeFns = map[string]bool{}
 
+type opaqueFn struct{ sig *types.Signature }
+
+
 func call0(i *interpreter, caller *frame, callpos token.Pos, fn value, args []value) value {
 	switch fn := fn.(type) {
 	case *ssa.Function:
@@ -524,6 +532,19 @@ func call0(i *interpreter, caller *frame, callpos token.Pos, fn value, args []va
 		return callSSA(i, caller, callpos, fn.Fn, args, fn.Env)
 	case *ssa.Builtin:
 		return callBuiltin(caller, callpos, fn, args)
+	case opaqueFn:
+		res := fn.sig.Results()
+		switch res.Len() {
+		case 0:
+			return nil
+		case 1:
+			return zero(res.At(0).Type())
+		}
+		t := make(tuple, res.Len())
+		for k := range t {
+			t[k] = zero(res.At(k).Type())
+		}
+		return t
 	}
 	panic(fmt.Sprintf("cannot call %T", fn))
 }
@@ -759,7 +780,7 @@ func doRecover(caller *frame) value {
 		case string:
 			// The interpreter explicitly called panic(): an engine limitation the target swallowed.
 			if EX != nil {
-				EX.Inconcl["engine-panic-recovered-by-target:"+firstLine(p)]++
+				EX.Inconcl["engine-panic-recovered-by-target:"+firstLine(p)+" in "+caller.caller.fn.String()+" <- "+lastFn]++
 			}
 			return iface{caller.i.runtimeErrorString, p}
 		default:
